@@ -188,6 +188,9 @@ Proof. intros q H. unfold pushdown_allowed. rewrite H. reflexivity. Qed.
 Theorem limited_subquery_not_pushed_down : forall q, pq_subbad q = true -> pushdown_allowed q = false.
 Proof. intros q H. unfold pushdown_allowed. rewrite H. destruct (pq_crosstab q); reflexivity. Qed.
 
+Theorem nested_subquery_not_pushed_down : forall q, pq_nested_subq q = true -> pushdown_allowed q = false.
+Proof. intros q H. unfold pushdown_allowed. rewrite H. destruct (pq_crosstab q); destruct (pq_subbad q); reflexivity. Qed.
+
 Theorem unkeyed_pushdown_only_when_nothing_regroups : forall q, pq_pk q = [] -> pushdown_allowed q = true ->
   pq_table_gb q = None /\ forallb l_all (pq_levels q) = true.
 Proof.
@@ -210,7 +213,7 @@ Theorem rejection_is_justified : exists (q:pquery) (eval:nat -> nat -> key nat -
   pushdown_allowed q = false /\ oto_sound nat eval (pq_levels q) /\ route_respects nat (pq_pk q) route /\
   (forall n, out_key nat 0 eval (pq_levels q) d1 n = out_key nat 0 eval (pq_levels q) d2 n) /\ route d1 <> route d2.
 Proof.
-  exists {| pq_crosstab := false; pq_subbad := false;
+  exists {| pq_crosstab := false; pq_subbad := false; pq_nested_subq := false;
             pq_levels := [{| l_all := false; l_gb := [(2, [2])] |}];
             pq_table_gb := None; pq_pk := [1] |}.
   exists (fun (_ n:nat) (k:key nat) => k n).
@@ -231,10 +234,10 @@ Proof.
 Qed.
 
 Example pushdown_examples :
-  pushdown_allowed {| pq_crosstab := false; pq_subbad := false; pq_levels := [{| l_all := false; l_gb := [(1,[1]); (2,[2])] |}]; pq_table_gb := None; pq_pk := [1] |} = true /\
-  pushdown_allowed {| pq_crosstab := false; pq_subbad := false; pq_levels := [{| l_all := false; l_gb := [(2,[2])] |}]; pq_table_gb := None; pq_pk := [1] |} = false /\
-  pushdown_allowed {| pq_crosstab := false; pq_subbad := false; pq_levels := [{| l_all := false; l_gb := [(5,[5])] |}; {| l_all := false; l_gb := [(5,[1]); (6,[2])] |}]; pq_table_gb := Some [1;2]; pq_pk := [1] |} = true /\
-  pushdown_allowed {| pq_crosstab := false; pq_subbad := false; pq_levels := [{| l_all := false; l_gb := [(6,[6])] |}; {| l_all := false; l_gb := [(5,[1]); (6,[2])] |}]; pq_table_gb := Some [1;2]; pq_pk := [1] |} = false.
+  pushdown_allowed {| pq_crosstab := false; pq_subbad := false; pq_nested_subq := false; pq_levels := [{| l_all := false; l_gb := [(1,[1]); (2,[2])] |}]; pq_table_gb := None; pq_pk := [1] |} = true /\
+  pushdown_allowed {| pq_crosstab := false; pq_subbad := false; pq_nested_subq := false; pq_levels := [{| l_all := false; l_gb := [(2,[2])] |}]; pq_table_gb := None; pq_pk := [1] |} = false /\
+  pushdown_allowed {| pq_crosstab := false; pq_subbad := false; pq_nested_subq := false; pq_levels := [{| l_all := false; l_gb := [(5,[5])] |}; {| l_all := false; l_gb := [(5,[1]); (6,[2])] |}]; pq_table_gb := Some [1;2]; pq_pk := [1] |} = true /\
+  pushdown_allowed {| pq_crosstab := false; pq_subbad := false; pq_nested_subq := false; pq_levels := [{| l_all := false; l_gb := [(6,[6])] |}; {| l_all := false; l_gb := [(5,[1]); (6,[2])] |}]; pq_table_gb := Some [1;2]; pq_pk := [1] |} = false.
 Proof. vm_compute. repeat split; reflexivity. Qed.
 
 Print Assumptions pushdown_only_if_confined.
@@ -244,3 +247,4 @@ Print Assumptions unkeyed_pushdown_only_when_nothing_regroups.
 Print Assumptions table_key_must_carry_partition_keys.
 Print Assumptions rejection_is_justified.
 Print Assumptions pushdown_examples.
+Print Assumptions nested_subquery_not_pushed_down.
